@@ -116,7 +116,13 @@ def run(ctx):
             det2 = dict(det); det2.update({"issue": "shift 0 does not reproduce two_sample under the same seed", "shift0": str(r0)[:300], "two_sample": str(rt0)[:300]})
             ctx.violation("oracle", det2, site="two_sample_shift")
         # constant d and the pair (u+d, u-d) give identical results
-        rc = guarded(core.two_sample_shift, x, y, stat=st, seed=seed, shift=d, **kw)
+        d_arg = d
+        if ctx.rng.random() < 0.35:      # a shift that comes out of a NumPy computation (np.mean(x) - np.mean(y), an element of linspace)
+            d_arg = np.float64(d); ctx.count("shift-given-as-np.float64")
+        rc = guarded(core.two_sample_shift, x, y, stat=st, seed=seed, shift=d_arg, **kw)
+        if rc[0] != "ok":
+            det2 = dict(det); det2.update({"issue": "a constant shift was not accepted", "shift_type": type(d_arg).__name__, "returned": str(rc[1:])[:200]})
+            ctx.violation("oracle", det2, site="two_sample_shift"); continue
         # ... and without keep_dist the same p-value and statistic come back (same seed, same re-allocations)
         kw2 = dict(kw); kw2["keep_dist"] = False
         rk = guarded(core.two_sample_shift, x, y, stat=st, seed=seed, shift=d, **kw2)
